@@ -103,17 +103,53 @@ def minPlus1d (f : Array Int) (q : Nat) : Int :=
 /-- element stride (C order) of axis `ax` -/
 def strideOf (shape : List Nat) (ax : Nat) : Nat := shapeSize (shape.drop (ax + 1))
 
-/-- one pass of `dist_transform` along axis `ax` over every line; `orig` is carried along -/
+/-- the root chosen by the read-out walk for abscissa `q` -/
+def ownerAt (f : Array Int) (q : Nat) : Nat := (owners1d f).getD q 0
+
+/-- the copy-back loop `for q: f[q*stride] = Df[q]` (and `orig[q*ostride] = ot[q]`): element `q` of the
+staging buffer goes to address `addr q` -/
+def writeLine (a : Array Int) (addr : Nat → Nat) (vals : Nat → Int) (n : Nat) : Array Int :=
+  (List.range n).foldl (fun a q => a.setIfInBounds (addr q) (vals q)) a
+
+/-- `dist_transform(Df, f, n, stride, z, v, orig, ot, ostride)` on the line whose `t`-th element lives at
+address `addr t` of the value buffer and `oaddr t` of the origin buffer: the line is read, the owners
+are computed, `Df[q] = (q - v[k])² + f[v[k]]` and `ot[q] = orig[v[k]]` are staged and then copied back -/
+def dtLineA (fo : Array Int × Array Int) (addr oaddr : Nat → Nat) (n : Nat) : Array Int × Array Int :=
+  let line : Array Int := ((List.range n).map fun (t : Nat) => fo.1.getD (addr t) 0).toArray
+  let own : Array Nat := (owners1d line).toArray
+  (writeLine fo.1 addr (fun q => valueAt line q (own.getD q 0)) n,
+   writeLine fo.2 oaddr (fun q => fo.2.getD (oaddr (own.getD q 0)) 0) n)
+
+/-- address of element `t` of a strided line: `f + offset` then `[t*stride]` (element units) -/
+def lineAddr (off st : Int) (t : Nat) : Nat := (off + (t : Int) * st).toNat
+
+/-- `dist_transform` on a strided line of the flat buffers -/
+def dtLine (fo : Array Int × Array Int) (off st ooff ost : Int) (n : Nat) : Array Int × Array Int :=
+  dtLineA fo (lineAddr off st) (lineAddr ooff ost) n
+
+/-- one iteration of `for (k …)` in `py_dt`: `n = dim(k)` elements per line with stride `sk = strides[k]`,
+`outer = size/n` lines starting at `start * strides[1-k]` -/
+def dtPass (fo : Array Int × Array Int) (n outer : Nat) (b sk so ob osk oso : Int) : Array Int × Array Int :=
+  (List.range outer).foldl (fun acc (start : Nat) =>
+      dtLine acc (b + (start : Int) * so) sk (ob + (start : Int) * oso) osk n) fo
+
+/-- `py_dt(f, orig)` on a 2-D view of shape `(d0, d1)`: data pointer at element `b` of the buffer,
+element strides `(s0, s1)` — any sign, any order — and the same for `orig` (`ob`, `os0`, `os1`).
+`size == 0` returns at once; otherwise the pass along axis 0 (`size/d0` lines) then along axis 1. -/
+def pyDt (fo : Array Int × Array Int) (d0 d1 : Nat) (b s0 s1 ob os0 os1 : Int) : Array Int × Array Int :=
+  let size := d0 * d1
+  if size == 0 then fo else
+    dtPass (dtPass fo d0 (size / d0) b s0 s1 ob os0 os1) d1 (size / d1) b s1 s0 ob os1 os0
+
+/-- the Python loop of `distance()` for one axis of an array that is not 2-D:
+`lines = np.moveaxis(f, axis, -1); for idx in np.ndindex(*lines.shape[:-1]): _distance.dt(lines[idx][None,:], None)`.
+The lines are enumerated by their first element: the flat indices `i` whose coordinate along `ax`
+is 0, in increasing order — which is the `ndindex` order of the remaining axes. Each call gets the `(1, n)` view with data pointer `i` and strides `(0, stride)`. -/
 def passAxis (shape : List Nat) (ax : Nat) (fo : Array Int × Array Int) : Array Int × Array Int :=
   let n := shape.getD ax 1
   let st := strideOf shape ax
   (List.range (shapeSize shape)).foldl (fun (acc : Array Int × Array Int) i =>
-      if (i / st) % n != 0 then acc else
-        let line : Array Int := ((List.range n).map fun t => fo.1.getD (i + t * st) 0).toArray
-        let own := owners1d line
-        (List.zip (List.range n) own).foldl (fun (acc : Array Int × Array Int) qv =>
-            (acc.1.setIfInBounds (i + qv.1 * st) (valueAt line qv.1 qv.2),
-             acc.2.setIfInBounds (i + qv.1 * st) (fo.2.getD (i + qv.2 * st) 0))) acc)
+      if (unravel shape i).getD ax 0 != 0 then acc else pyDt acc 1 n (i : Int) 0 (st : Int) (i : Int) 0 (st : Int))
     fo
 
 def sumSq : List Nat → Int
@@ -126,12 +162,23 @@ def sentinel (shape : List Nat) : Int :=
   if shape.length == 2 then 2 * ((shape.foldl max 0 : Nat) : Int) ^ 2 + 1
   else sumSq shape + 1
 
-/-- `distance(bw)` (metric `euclidean2`) together with the tracked origins:
-    `bw` non-zero = foreground; axes are processed in order -/
+/-- `distance(bw)` (metric `euclidean2`) together with the tracked origins, as `distance.py` and
+`segmentation.gvoronoi` drive `_distance.dt` now: `bw` non-zero = foreground; the buffers `f`
+(`np.zeros(bw.shape)` filled with the sentinel) and `orig` (`np.arange(size).reshape(shape)`) are
+C-contiguous. A 2-D array is handed to `py_dt` whole (strides `(d1, 1)`); for every other rank the
+axes are processed in order through `(1, n)` views (`passAxis`). -/
 def distanceModel (shape : List Nat) (bw : Array Int) : Array Int × Array Int :=
   let f0 : Array Int := bw.map fun b => if b == 0 then 0 else sentinel shape
   let o0 : Array Int := ((List.range (shapeSize shape)).map fun (i : Nat) => (i : Int)).toArray
-  (List.range shape.length).foldl (fun fo ax => passAxis shape ax fo) (f0, o0)
+  match shape with
+  | [d0, d1] => pyDt (f0, o0) d0 d1 0 (d1 : Int) 1 0 (d1 : Int) 1
+  | _ => (List.range shape.length).foldl (fun fo ax => passAxis shape ax fo) (f0, o0)
+
+/-- the wrapper's last step: `metric='euclidean'` takes `np.sqrt(f, f)` of the double array that holds
+the squared transform; `euclidean2` returns it as it is -/
+def distanceWrapper (shape : List Nat) (bw : Array Int) (euclidean : Bool) : Array Float :=
+  let f : Array Float := (distanceModel shape bw).1.map Float.ofInt
+  if euclidean then f.map Float.sqrt else f
 
 /-! ### the same passes at the level of coordinates
 
@@ -139,9 +186,6 @@ def distanceModel (shape : List Nat) (bw : Array Int) : Array Int × Array Int :
 logically: every pixel receives the value of the 1-D transform of the line through it along the
 axis. `distanceCoord` states the passes in this form (no strides); the driver runs it next to the
 flat/stride form above and the harness insists that both agree with the implementation. -/
-
-/-- the root chosen by the read-out walk for abscissa `q` -/
-def ownerAt (f : Array Int) (q : Nat) : Nat := (owners1d f).getD q 0
 
 /-- the line through `p` along axis `ax` -/
 def lineOf (im : Img Int) (p : List Int) (ax : Nat) : Array Int :=
@@ -214,7 +258,9 @@ def handle (a : Args) : String :=
     let m := (distanceCoord shape bw).1.data
     let fl := (distanceModel shape bw).1
     let spec := edtSpec shape bw
-    s!"spec={showInts spec} model={showInts m.toList} flat={showInts fl.toList} maxd={maxDist2 shape}"
+    let wrap := if a.has "eucl" then
+        s!" wrap={showFloats (distanceWrapper shape bw (a.nat "eucl" == 1)).toList}" else ""
+    s!"spec={showInts spec} model={showInts m.toList} flat={showInts fl.toList} maxd={maxDist2 shape}{wrap}"
   | "gvor" =>
     -- labels; background of the transform = labelled pixels
     let lab := (a.ints "data").toArray
